@@ -136,6 +136,8 @@ func checkC09(c *Ctx) {
 	// R8: the reader stage forwards every byte it reads exactly once (all input chunkings)
 	if read, nVal, errVal := handleRead(pl.handle); read != nil && nVal != nil && errVal != nil {
 		ruleForwardOnce(c, pl, "C09-R8", read, nVal, errVal)
+		// R9: gaps in the input (EOF / timeout runs) are bridged as documented, whatever their timing
+		ruleTransientGaps(c, pl.handle, nVal, errVal, "C09-R9", "C09-R9")
 	} else {
 		c.Fail("C09-R8", "Handle:read", pl.handle.Pos(), "unresolved", "the read call of Handle was not found")
 	}
@@ -147,6 +149,7 @@ func checkC09(c *Ctx) {
 	c.MinInstances("C09-R6", 3)
 	c.MinInstances("C09-R7", 1)
 	c.MinInstances("C09-R8", 6)
+	c.MinInstances("C09-R9", 10)
 }
 
 // ---- R1 close discipline ------------------------------------------------------
